@@ -43,6 +43,8 @@ pub fn c06_configs(tier: Tier) -> Vec<OutCfg> {
                 judge: J_ROUTING,
                 prologue: 0,
                 peer_max_packet: 0,
+                inbound: 0,
+                may_close: false,
             });
         }
         // converse: correct in-order peer, some sends fail locally
@@ -79,6 +81,8 @@ pub fn c06_configs(tier: Tier) -> Vec<OutCfg> {
                 judge: J_ROUTING | J_LIVENESS,
                 prologue: 0,
                 peer_max_packet: if big { 100 } else { 0 },
+                inbound: 0,
+                may_close: false,
             });
         }
     }
@@ -110,6 +114,8 @@ pub fn c14_configs(tier: Tier) -> Vec<OutCfg> {
                     judge: J_QOS2 | J_WINDOW,
                     prologue: 0,
                     peer_max_packet: 0,
+                    inbound: 0,
+                    may_close: false,
                 });
             }
         }
